@@ -17,7 +17,7 @@ OPEXPR = {
     'INT_U': 'unsigned_rule', 'INT_S': 'signed_rule', 'RAW': "raw_string< '[', '=', ']' >",
     'PRED_AND': "predicates_and< range< 'a', 'c' >, not_one< 'b' > >", 'PRED_NOT': "predicate_not< one< 'a' > >",
     'STAR': 'star< {a} >', 'PLUS': 'plus< {a} >', 'OPT': 'opt< {a} >', 'AT': 'at< {a} >', 'NOT_AT': 'not_at< {a} >',
-    'SEQ': 'seq< {a}, {b} >', 'SOR': 'sor< {a}, {b} >', 'SEQ3': 'seq< {a}, {b}, {c} >', 'SOR3': 'sor< {a}, {b}, {c} >',
+    'SEQ1': 'seq< {a} >', 'SOR1': 'sor< {a} >', 'SEQ': 'seq< {a}, {b} >', 'SOR': 'sor< {a}, {b} >', 'SEQ3': 'seq< {a}, {b}, {c} >', 'SOR3': 'sor< {a}, {b}, {c} >',
     'STAR2': 'star< {a}, {b} >', 'PLUS2': 'plus< {a}, {b} >', 'OPT2': 'opt< {a}, {b} >', 'AT2': 'at< {a}, {b} >', 'NOT_AT2': 'not_at< {a}, {b} >',
     'IF_THEN_ELSE': 'if_then_else< {a}, {b}, {c} >', 'IF_MUST': 'if_must< {a}, {b} >', 'OPT_MUST': 'opt_must< {a}, {b} >',
     'IF_MUST_ELSE': 'if_must_else< {a}, {b}, {c} >', 'IF_MUST3': 'if_must< {a}, {b}, {c} >', 'OPT_MUST3': 'opt_must< {a}, {b}, {c} >',
